@@ -14,9 +14,10 @@
 //!   hdrs   `,`-separated name=value set by the handler, `-` none
 //!   client `.`-separated: a release every chunk at once | b<n> release when ≥ n bytes are unreleased or
 //!          when the connection has stalled | d<ms> virtual delay before a stalled stream releases |
-//!          r<k> RST_STREAM once ≥ k body bytes were received (r0: right after the response head)
+//!          r<k> RST_STREAM once ≥ k body bytes were received (r0: right after the response head) |
+//!          h never release capacity on this stream (ends `held` when the body does not fit the window)
 //! Output: one `;`-separated record per stream `k=<status>|<headers sorted by name>|<len>|<fnv32>|<end>`,
-//! end ∈ eos | err | rst | hang (len/hash only for eos).
+//! end ∈ eos | err | rst | held | hang (len/hash only for eos).
 use std::{
     cell::RefCell,
     collections::VecDeque,
@@ -78,6 +79,8 @@ struct Spec {
     batch: Option<usize>,
     delay_ms: u64,
     reset_at: Option<usize>,
+    /// the client never releases capacity on this stream (and resets it once it is clear nothing more comes)
+    hold: bool,
 }
 
 #[derive(Clone, Debug)]
@@ -137,17 +140,18 @@ fn parse_spec(tok: &str) -> Option<Spec> {
             hdrs.push((n.to_owned(), v.to_owned()));
         }
     }
-    let (mut batch, mut delay_ms, mut reset_at) = (None, 10, None);
+    let (mut batch, mut delay_ms, mut reset_at, mut hold) = (None, 10, None, false);
     for c in f[6].split('.') {
         match c.as_bytes().first() {
             Some(b'a') => batch = None,
+            Some(b'h') if c == "h" => hold = true,
             Some(b'b') => batch = Some(c[1..].parse().ok()?),
             Some(b'd') => delay_ms = c[1..].parse().ok()?,
             Some(b'r') => reset_at = Some(c[1..].parse().ok()?),
             _ => return None,
         }
     }
-    Some(Spec { head, post, status, kind, items, hdrs, batch, delay_ms, reset_at })
+    Some(Spec { head, post, status, kind, items, hdrs, batch, delay_ms, reset_at, hold })
 }
 
 fn parse_case(line: &str) -> Option<Case> {
@@ -363,10 +367,11 @@ async fn client_stream(
                         return;
                     }
                 }
-                let rel = match spec.batch {
-                    None => true,
-                    Some(b) => unreleased >= b,
-                };
+                let rel = !spec.hold
+                    && match spec.batch {
+                        None => true,
+                        Some(b) => unreleased >= b,
+                    };
                 if rel && unreleased > 0 {
                     let _ = body.flow_control().release_capacity(unreleased);
                     unreleased = 0;
@@ -384,7 +389,14 @@ async fn client_stream(
             }
             Err(_) => {
                 // the whole connection was idle for `delay` of virtual time
-                if unreleased > 0 {
+                if spec.hold {
+                    stalls += 1;
+                    if stalls * (spec.delay_ms.max(1) as usize) >= 5_000 {
+                        tx.send_reset(h2::Reason::CANCEL);
+                        got.borrow_mut().end = "held";
+                        return;
+                    }
+                } else if unreleased > 0 {
                     let _ = body.flow_control().release_capacity(unreleased);
                     unreleased = 0;
                     stalls = 0;
@@ -627,7 +639,7 @@ fn show(k: usize, s: &Spec, g: &Got, raw: bool) -> String {
     let racy = s.reset_at.is_some() && s.items.contains(&Item::Err);
     match g.end {
         "eos" => format!("{k}={}|{}|{}|{:08x}|eos", g.status, show_headers(&g.hdrs), g.body.len(), fnv32(&g.body)),
-        "rst" | "err" if g.head_seen => {
+        "rst" | "err" | "held" if g.head_seen => {
             format!("{k}={}|{}|{}", g.status, show_headers(&g.hdrs), if racy { "abort" } else { g.end })
         }
         e => format!("{k}={e}"),
@@ -641,7 +653,7 @@ fn bodiless(status: u16) -> bool {
 }
 
 /// The property's own words evaluated on what the client saw, from the handler script alone.
-fn oracle(k: usize, s: &Spec, g: &Got, raw: bool) -> Option<(String, String)> {
+fn oracle(k: usize, s: &Spec, g: &Got, raw: bool, w: usize) -> Option<(String, String)> {
     // what the handler's body produces
     let err_at = s.items.iter().position(|i| *i == Item::Err);
     let good = &s.items[..err_at.unwrap_or(s.items.len())];
@@ -693,6 +705,9 @@ fn oracle(k: usize, s: &Spec, g: &Got, raw: bool) -> Option<(String, String)> {
     }
     match g.end {
         "eos" => {
+            if s.hold && !no_body && produced.len() > w {
+                return f("window-overrun", format!("{} bytes delivered through a window of {w} that was never reopened", g.body.len()));
+            }
             if no_body {
                 if !g.body.is_empty() {
                     return f("body-on-bodiless", format!("{} body bytes on a {} response to {}", g.body.len(), s.status, if s.head { "HEAD" } else { "GET" }));
@@ -701,6 +716,13 @@ fn oracle(k: usize, s: &Spec, g: &Got, raw: bool) -> Option<(String, String)> {
                 return f("truncated-looks-complete", format!("handler body failed after {} bytes but the stream ended cleanly", produced.len()));
             } else if g.body != produced {
                 return f("body-bytes", format!("received {} bytes, handler produced {}", g.body.len(), produced.len()));
+            }
+            None
+        }
+        "held" => {
+            // the client withheld the window: legitimate only if the body does not fit into it
+            if !s.hold || no_body || produced.len() <= w {
+                return f("stalled", format!("stream stalled after {} of {} bytes with an open window of {w}", g.body.len(), produced.len()));
             }
             None
         }
@@ -734,7 +756,7 @@ fn run(line: &str) -> CaseResult {
     let mut res = CaseResult::ok(if out.is_empty() { "-".to_owned() } else { out.join(";") });
     res.nontrivial = gots.iter().any(|g| !g.body.is_empty());
     for (k, (s, g)) in case.streams.iter().zip(&gots).enumerate() {
-        if let Some((sig, d)) = oracle(k, s, g, case.raw) {
+        if let Some((sig, d)) = oracle(k, s, g, case.raw, case.w as usize) {
             res = res.fail(&sig, d);
         }
         res.tags.push(format!("end:{}", g.end));
@@ -748,6 +770,9 @@ fn run(line: &str) -> CaseResult {
             }
         }
         res.tags.push("mode:raw-h2-contract".into());
+        if polls.iter().any(|(_, want, cap)| cap < want) {
+            res.tags.push("contract:partial-grant-seen".into());
+        }
         res.tags.push(format!("contract-polls:{}", match polls.len() { 0 => "0", 1..=9 => "1-9", 10..=99 => "10-99", _ => "100+" }));
     }
     res.tags.push(format!("streams:{}", case.streams.len()));
@@ -773,7 +798,7 @@ const HDR_POOL: &[&str] = &[
     "cache-control=no-store",
 ];
 
-fn gen_stream(rng: &mut Rng, w: usize, big: bool) -> String {
+fn gen_stream(rng: &mut Rng, w: usize, big: bool, hold_ok: bool) -> String {
     let method = match rng.below(20) {
         0..=2 => "H".to_owned(),
         3 => format!("P{}", *rng.pick(&[0usize, 10, 3000])),
@@ -834,6 +859,8 @@ fn gen_stream(rng: &mut Rng, w: usize, big: bool) -> String {
     }
     if reset {
         client.push(format!("r{}", *rng.pick(&[0usize, 1, tot / 2, tot, tot + 1])));
+    } else if hold_ok && rng.chance(1, 8) {
+        client = vec!["h".to_owned()];
     }
     format!(
         "s:{method}:{status}:{kind}:{}:{}:{}",
@@ -874,8 +901,8 @@ fn gen(ctx: &Ctx) -> Vec<String> {
     }
     // random part
     let n = match ctx.tier {
-        Tier::Quick => 1200,
-        _ => ctx.budget(1200),
+        Tier::Quick => 3000,
+        _ => ctx.budget(3000),
     };
     for i in 0..n {
         let w = match rng.below(12) {
@@ -900,8 +927,15 @@ fn gen(ctx: &Ctx) -> Vec<String> {
         }
         let ns = rng.range(1, 4);
         let big = i % 8 == 0;
+        // a stream whose window is never reopened: at most one, and only where it cannot exhaust the
+        // connection-level window that its siblings share (that would be HTTP/2's doing, not actix's)
+        let mut hold_ok = w <= 16_384 && !toks.iter().any(|t| t.starts_with("cw="));
         for _ in 0..ns {
-            toks.push(gen_stream(&mut rng, w, big));
+            let t = gen_stream(&mut rng, w, big, hold_ok);
+            if t.ends_with(":h") {
+                hold_ok = false;
+            }
+            toks.push(t);
         }
         cases.push(toks.join(" "));
     }
